@@ -47,7 +47,8 @@ def gen_bc(rng, kind, ntime, times):
 
 
 def gen_case(rng, cid, big=False, with_results=None):
-    ntime = rng.randint(2, 4)
+    # mostly short histories; some long ones with lengths around the powers of two (block-wise writers)
+    ntime = rng.randint(2, 4) if (big or rng.random() < 0.75) else rng.choice([65, 129, 64, 33, 17])
     tvals = [0.0]
     for _ in range(ntime - 1):
         tvals.append(tvals[-1] + rng.choice([0.5, 1.0, 12.0]))
